@@ -3,8 +3,6 @@
 def register(add, PENDING):
     PENDING.update({
         "C15": "simulation target per DESIGN.md 7 (randomness seam); check not built yet, therefore not claimed",
-        "C16": "simulation target per DESIGN.md 6/9 (storage faults on template files); check not built yet, therefore not claimed",
-        "C17": "simulation target per DESIGN.md 6 (storage and I/O faults on artifact files); check not built yet, therefore not claimed",
         "C18": "simulation target per DESIGN.md 5 real mode; check not built yet, therefore not claimed",
         "C33": "simulation target per DESIGN.md 8 (allocator seam); check not built yet, therefore not claimed",
         "C36": "simulation target per DESIGN.md 5 real mode; check not built yet, therefore not claimed",
@@ -15,4 +13,13 @@ def register(add, PENDING):
     add("C23", "fault_enumeration", "deterministic fault injection at the system-call seam: every call of the publish/rollback sequence failed or turned into process death, singly and in adaptive pairs, plus seeded multi-run histories and full-pipeline runs",
         "DESIGN.md 6, 9/C23",
         "Complete enumeration of single faults (crash, short write, 11 errnos) and adaptive fault pairs over every system call of the real publish routine from five initial states, judged on the real directory tree after each child exit (no mix, no lost copy, success reported iff live, failed generation leaves nothing behind, progress after faults); seeded histories of several builder runs over accumulated debris and runs of the full generate_all_circuit_binaries pipeline are sampled.",
+        STORE_NOTE)
+
+    add("C16", "fault_enumeration", "storage-fault injection on padding-template files (misdirected valid proofs, edited public inputs, flips, truncation, stale/wrong-layer files) x every entry point, each booted in a child process",
+        "DESIGN.md 6, 9/C16",
+        "Every constructor, loader, aggregator init and build stage that accepts a padding template is booted once per template fault; the template on disk is judged by the harness's own predicate (deserialises, sentinel at the documented offsets, accepted by the canonical verifier) and anything failing it must be refused, a refusing build stage must write nothing, and the genuine template must be accepted (precondition). Quick runs every valid-but-wrong proof and a seeded third of the other faults for shape (1,1); thorough runs all faults plus seeded positions for three shapes.",
+        STORE_NOTE)
+    add("C17", "fault_enumeration", "storage faults at rest and I/O faults at load time on artifact files x every loader, reads observed at the libc seam (which files were opened, how many bytes were read)",
+        "DESIGN.md 6, 9/C17",
+        "Every loader is booted in a child process from directories with storage faults (bit flip, truncation, extension, zero fill, torn/lost/misdirected writes, missing and sparse oversize files, poison prover artifacts, config variants, mixed generations) and I/O faults; acceptance implies that every artifact the loader READ is canonical for the shape in use (byte-identical for leaf/private batch, parse-and-reserialise-identical for the public batch, C16 predicate for templates), over-cap files yield zero bytes read, and no *prover*.bin is ever read, also through commit and prove. One-directional: rejections are never alarmed.",
         STORE_NOTE)
